@@ -68,11 +68,9 @@ def gen(rng, budget, tier):
             yield f"c01.reader {m} {hexs(c)}"
         elif r < 0.9:
             buf = rng.choice([1, 2, 3, 5, 8, 17, 64, 200, 32768])
-            if not hostile:
-                buf = max(buf, m + 2)
             yield f"c01.pipe {rng.randrange(2)} {m} {buf} {rng.choice([1, 2, 3, 7, 64, 4096])} {hexs(c)}"
         else:
             yield f"c01.e2e {m} {hexs(c)}"
     # lines around the 32 KiB transport buffer (e2e, default-sized MaxLineLength)
-    for n in ([32766, 32767, 32768, 40000] if tier == "thorough" else [32766, 32767, 32768]):
+    for n in [32766, 32767, 32768, 40000, 70000]:
         yield f"c01.e2e 1048576 {hexs(b'a' * n + b'%' + bytes([10]) + b'tail' + bytes([10]))}"
